@@ -8,6 +8,8 @@ import (
 	"os"
 	"os/exec"
 	"path/filepath"
+	"runtime"
+	"runtime/debug"
 	"sort"
 	"strings"
 
@@ -66,6 +68,12 @@ func selftest(repo, verif, id string, known *core.KnownFile) []seedResult {
 
 func runSeed(repo, seedDir string, m seedMeta, id string, known *core.KnownFile) seedResult {
 	res := seedResult{Seed: m.Name}
+	// the program loaded for this seed must not outlive it
+	defer func() {
+		core.ResetCaches()
+		runtime.GC()
+		debug.FreeOSMemory()
+	}()
 	tmp, err := os.MkdirTemp("", "nokvsa-selftest-")
 	if err != nil {
 		res.Note = err.Error()
